@@ -37,8 +37,8 @@ Useful(c) == /\ RefStep(ref, c).res = "ok"
              /\ ~(c.op = "MkdirAll" /\ c.p \in DOMAIN ref)
 \* failing calls are mostly "near misses": every path argument exists or is the child of an existing directory
 Near(p) == p \in DOMAIN ref \/ (p # Root /\ Parent(p) \in DOMAIN ref)
-Pick == LET ok   == {c \in Calls : Useful(c) /\ Fits(c)}
-            all  == {c \in Calls : Fits(c)}
+Pick == LET ok   == {c \in Calls : Useful(c) /\ Fits(c) /\ ArchiveOK(c)}
+            all  == {c \in Calls : Fits(c) /\ ArchiveOK(c)}
             near == {c \in all : ~Useful(c) /\ c.op \notin Observers /\ Near(c.p) /\ (c.op = "Rename" => c.q \in DOMAIN ref)}
             k    == RandomElement(1..100)
         IN {RandomElement(IF k <= OkBias /\ ok # {} THEN ok
